@@ -122,16 +122,16 @@ class MultipartDecoder:
         self._parts_decoded = 0
 
     def last_newline(self, data: bytes) -> int:
-        try:
-            last_nl = data.rindex(b"\n")
-        except ValueError:
-            last_nl = len(data)
-        try:
-            last_cr = data.rindex(b"\r")
-        except ValueError:
-            last_cr = len(data)
+        # The start of the last line break, where "\r\n" counts as one.
+        last = max(data.rfind(b"\n"), data.rfind(b"\r"))
 
-        return min(last_nl, last_cr)
+        if last == -1:
+            return len(data)
+
+        if last > 0 and data[last - 1 : last + 1] == b"\r\n":
+            return last - 1
+
+        return last
 
     def receive_data(self, data: bytes | None) -> None:
         if data is None:
